@@ -193,6 +193,35 @@ class Interp:
     def st_Pass(self, s, fr):
         return None
 
+    def st_Delete(self, s, fr):
+        """del name / del obj[index or slice] (in-place removal from python lists, SeqList and ArrList prefixes)"""
+        for t in s.targets:
+            if isinstance(t, ast.Name):
+                fr.locals.pop(t.id, None)
+                continue
+            if not isinstance(t, ast.Subscript):
+                raise EngineError("unsupported del target %s" % type(t).__name__)
+            o = self.eval(t.value, fr)
+            i = self.eval_index(t.slice, fr)
+            if self.write_hook is not None:
+                self.write_hook(self, o, i, "item")
+            if isinstance(o, (list, dict)):
+                if isinstance(i, slice):
+                    i = slice(*[self._concretize(x, 0, len(o), "del slice") if isinstance(x, SymInt) else x for x in (i.start, i.stop, i.step)])
+                elif isinstance(i, SymInt):
+                    i = self._concretize(i, -len(o), len(o) - 1, "del index")
+                self.native(o.__delitem__, i)
+            elif isinstance(o, (SeqList, ArrList)) and isinstance(i, slice) and i.start in (None, 0) and i.step is None:
+                # removal of a prefix: the object itself becomes its own suffix view
+                rest = o.getitem(self, slice(i.stop, None, None))
+                if isinstance(o, ArrList):
+                    o.arr, o.len, o.off = rest.arr, rest.len, rest.off
+                else:
+                    o.seq = rest.seq
+            else:
+                raise EngineError("unsupported del on %r" % type(o))
+        return None
+
     def st_Return(self, s, fr):
         return ("return", self.eval(s.value, fr) if s.value is not None else None)
 
